@@ -16,7 +16,7 @@ import (
 // job kinds plus a few of size 4.
 func jobSets() [][]int {
 	var out [][]int
-	kinds := []int{JAsm1, JAsm2, JSim, JLoad, JAsm3, JAsm4, JAsm1b}
+	kinds := []int{JAsm1, JAsm2, JSim, JLoad, JAsm3, JAsm4, JAsm1b, JAsm88, JAsmErr, JAsmLbl}
 	for _, a := range kinds {
 		out = append(out, []int{a})
 		for _, b := range kinds {
@@ -25,7 +25,7 @@ func jobSets() [][]int {
 			}
 			out = append(out, []int{a, b})
 			for _, c := range kinds {
-				if c < b {
+				if c < b || c > JAsm3 {
 					continue
 				}
 				out = append(out, []int{a, b, c})
